@@ -1040,28 +1040,115 @@ func REolNl(c *core.Ctx) {
 		})
 		return found
 	}
-	var visit func(e ast.Expr)
-	visit = func(e ast.Expr) {
+	// The form the newline test has to take is given by the sibling alternative for a
+	// single-character successor: a successor that holds in front of '\n' is treated like
+	// the successor One('\n').  `subsequent.T == NtOne && n.Ch != subsequent.Ch` gives
+	// `n.Ch != '\n'`; the negated-character loop, whose test is `n.Ch == subsequent.Ch`,
+	// needs `n.Ch == '\n'`.
+	ntOne := p.LookupObj("syntax", "NtOne")
+	chField := p.LookupField("syntax", "RegexNode", "Ch")
+	var flatOr func(e ast.Expr, out *[]ast.Expr)
+	flatOr = func(e ast.Expr, out *[]ast.Expr) {
 		e = ast.Unparen(e)
 		if be, ok := e.(*ast.BinaryExpr); ok && be.Op == token.LOR {
-			// a disjunction of bare kind tests stays one alternative: (T == NtEnd || T == NtEol) with nothing else
-			if mentionsKind(be) != "" && !mentionsNewline(be) {
-				l, r := ast.Unparen(be.X), ast.Unparen(be.Y)
-				_, lOr := l.(*ast.BinaryExpr)
-				_, rOr := r.(*ast.BinaryExpr)
-				_ = lOr
-				_ = rOr
+			flatOr(be.X, out)
+			flatOr(be.Y, out)
+			return
+		}
+		*out = append(*out, e)
+	}
+	var flatAnd func(e ast.Expr, out *[]ast.Expr)
+	flatAnd = func(e ast.Expr, out *[]ast.Expr) {
+		e = ast.Unparen(e)
+		if be, ok := e.(*ast.BinaryExpr); ok && be.Op == token.LAND {
+			flatAnd(be.X, out)
+			flatAnd(be.Y, out)
+			return
+		}
+		*out = append(*out, e)
+	}
+	// render e with every `<succ>.Ch` written as '\n'
+	var render func(e ast.Expr, succ types.Object) string
+	render = func(e ast.Expr, succ types.Object) string {
+		switch x := ast.Unparen(e).(type) {
+		case *ast.SelectorExpr:
+			if id, ok := ast.Unparen(x.X).(*ast.Ident); ok && succ != nil && info.ObjectOf(id) == succ && core.FieldOf(info, x) == chField {
+				return "'\\n'"
 			}
-			visit(be.X)
-			visit(be.Y)
-			return
+			return types.ExprString(x)
+		case *ast.BinaryExpr:
+			return render(x.X, succ) + " " + x.Op.String() + " " + render(x.Y, succ)
+		case *ast.UnaryExpr:
+			return x.Op.String() + render(x.X, succ)
+		case *ast.CallExpr:
+			var args []string
+			for _, a := range x.Args {
+				args = append(args, render(a, succ))
+			}
+			return types.ExprString(x.Fun) + "(" + strings.Join(args, ", ") + ")"
 		}
-		kind := mentionsKind(e)
-		if kind == "" {
-			return
+		return types.ExprString(e)
+	}
+	oneTestOf := func(alts []ast.Expr) (string, bool) {
+		for _, alt := range alts {
+			var cj []ast.Expr
+			flatAnd(alt, &cj)
+			if len(cj) != 2 {
+				continue
+			}
+			for i, cnd := range cj {
+				be, ok := cnd.(*ast.BinaryExpr)
+				if !ok || be.Op != token.EQL || core.FieldOf(info, be.X) != tField {
+					continue
+				}
+				id, ok := ast.Unparen(be.Y).(*ast.Ident)
+				if !ok || ntOne == nil || info.ObjectOf(id) != ntOne {
+					continue
+				}
+				sel, ok := ast.Unparen(be.X).(*ast.SelectorExpr)
+				if !ok {
+					continue
+				}
+				sid, ok := ast.Unparen(sel.X).(*ast.Ident)
+				if !ok {
+					continue
+				}
+				return render(cj[1-i], info.ObjectOf(sid)), true
+			}
 		}
-		n++
-		c.Check(mentionsNewline(e), fmt.Sprintf("canBeMadeAtomic / alternative #%d accepting %s keeps '\\n' out of the loop", n, kind), e.Pos(), "`%s` accepts %s as successor without testing the loop against '\\n': in front of $ / \\Z a loop over newlines has to be able to give one back (`(?m)a\\n+$` on \"a\\n\\nb\")", types.ExprString(e), kind)
+		return "", false
+	}
+	visit := func(root ast.Expr) {
+		var alts []ast.Expr
+		flatOr(root, &alts)
+		oneTest, haveOne := oneTestOf(alts)
+		for _, e := range alts {
+			kind := mentionsKind(e)
+			if kind == "" {
+				continue
+			}
+			n++
+			key := fmt.Sprintf("canBeMadeAtomic / alternative #%d accepting %s keeps '\\n' out of the loop", n, kind)
+			if !mentionsNewline(e) {
+				c.Bad(key, e.Pos(), "`%s` accepts %s as successor without testing the loop against '\\n': in front of $ / \\Z a loop over newlines has to be able to give one back (`(?m)a\\n+$` on \"a\\n\\nb\")", types.ExprString(e), kind)
+				continue
+			}
+			if haveOne && chField != nil {
+				var cj []ast.Expr
+				flatAnd(e, &cj)
+				same := false
+				for _, cnd := range cj {
+					if mentionsNewline(cnd) && render(cnd, nil) == oneTest {
+						same = true
+					}
+				}
+				if !same {
+					c.Bad(key, e.Pos(), "`%s` tests the loop against '\\n' differently from the way the sibling alternative for a one-character successor tests it against that character (`%s` expected): the loop of this branch can still match the newline in front of %s", types.ExprString(e), oneTest, kind)
+					continue
+				}
+			}
+			c.OK(key, e.Pos(), "`%s`", types.ExprString(e))
+		}
 	}
 	for _, u := range units {
 		ast.Inspect(u.Body, func(x ast.Node) bool {
